@@ -252,6 +252,22 @@ impl SessionStorageBackend for SqliteSessionStore {
     /// The server-side state is left unchanged.
     #[tracing::instrument(name = "Change id for server-side session record", level = tracing::Level::INFO, skip_all)]
     async fn change_id(&self, old_id: &SessionId, new_id: &SessionId) -> Result<(), ChangeIdError> {
+        let mut tx = self
+            .0
+            .begin()
+            .await
+            .map_err(|e| ChangeIdError::Other(e.into()))?;
+        // An expired record under the new id is as good as gone, but its row may
+        // not have been reaped yet: get it out of the way, or the rename
+        // below would trip on the primary key.
+        sqlx::query(
+            "DELETE FROM sessions \
+            WHERE id = ? AND deadline <= unixepoch()",
+        )
+        .bind(new_id.inner().to_string())
+        .execute(&mut *tx)
+        .await
+        .map_err(|e| ChangeIdError::Other(e.into()))?;
         let query = sqlx::query(
             "UPDATE sessions \
             SET id = ? \
@@ -259,8 +275,13 @@ impl SessionStorageBackend for SqliteSessionStore {
         )
         .bind(new_id.inner().to_string())
         .bind(old_id.inner().to_string());
-        match query.execute(&self.0).await {
-            Ok(r) => as_unknown_id_error(&r, old_id).map_err(Into::into),
+        match query.execute(&mut *tx).await {
+            Ok(r) => {
+                as_unknown_id_error(&r, old_id)?;
+                tx.commit()
+                    .await
+                    .map_err(|e| ChangeIdError::Other(e.into()))
+            }
             Err(e) => {
                 if let Err(e) = as_duplicated_id_error(&e, new_id) {
                     Err(e.into())
